@@ -37,6 +37,9 @@ structure Ctx (D : Type) where
   newName : Nat
   verify : Bool
   fullNeeded : Bool
+  /-- the data.db-wal of an older snapshot's directory (an earlier consolidating reap leaves a
+  zero-length one); older directories are only ever removed, so it never matters -/
+  oldDw : Nat → Option Nat := fun _ => none
 
 namespace Ctx
 variable (c : Ctx D)
@@ -58,6 +61,10 @@ def snaps : List (Snap D) := c.olds ++ c.full :: c.newers
 end Ctx
 
 def findSnap (l : List (Snap D)) (n : Nat) : Option (Snap D) := l.find? (fun x => x.name == n)
+
+/-- the directory of an older snapshot -/
+def oldDirOf (c : Ctx D) (y : Snap D) : Dir D :=
+  { tmp := false, mt := some y.mt, db := y.db, crc := y.crc, dbWal := c.oldDw y.name, wals := y.wals }
 
 /-- progress of the plan -/
 inductive Prog (D : Type) where
@@ -87,7 +94,7 @@ def mkDir (c : Ctx D) (oth : Nat → Option (Dir D)) : Prog D → Nat → Option
                          wals := y.wals.filter (fun w => !cons.contains (n, w)) }
       | none =>
         match findSnap c.olds n with
-        | some y => some (dirOf y)
+        | some y => some (oldDirOf c y)
         | none => if n = c.newName then none else oth n
   | .post crc k sel m dw, n =>
     if n = c.full.name then
@@ -97,7 +104,7 @@ def mkDir (c : Ctx D) (oth : Nat → Option (Dir D)) : Prog D → Nat → Option
       | some y => rmView c k sel n { tmp := false, mt := some y.mt, db := y.db, crc := y.crc, dbWal := none, wals := [] }
       | none =>
         match findSnap c.olds n with
-        | some y => rmView c k sel n (dirOf y)
+        | some y => rmView c k sel n (oldDirOf c y)
         | none => if n = c.newName then none else oth n
   | .renamed dw, n =>
     if n = c.full.name then none
@@ -1063,7 +1070,7 @@ theorem post_R' {c : Ctx D} (g : Good c) (oth) {n : Nat} (h : n ∈ c.R) :
       fun crc k sel m dw => by simp only [mkDir, hf, if_false, h1]⟩
   | none =>
     cases h2 : findSnap c.olds n with
-    | some y => exact ⟨dirOf y, fun crc k sel m dw => by simp only [mkDir, hf, if_false, h1, h2]⟩
+    | some y => exact ⟨oldDirOf c y, fun crc k sel m dw => by simp only [mkDir, hf, if_false, h1, h2]⟩
     | none =>
       exfalso
       rw [mem_R_iff] at h
@@ -1595,7 +1602,7 @@ structure WF (c : Ctx D) (s0 : FS D) (dw0 : Option Nat) : Prop where
   fullDir : s0.dir c.full.name = some { tmp := false, mt := some c.full.mt, db := some c.d0, crc := c.full.crc,
                                         dbWal := dw0, wals := c.full.wals }
   newerDir : ∀ y ∈ c.newers, s0.dir y.name = some (dirOf y)
-  oldDir : ∀ y ∈ c.olds, s0.dir y.name = some (dirOf y)
+  oldDir : ∀ y ∈ c.olds, s0.dir y.name = some (oldDirOf c y)
   others : ∀ n, n ∉ c.snaps.map (·.name) → ∀ d, s0.dir n = some d → d.tmp = true
   newDir : s0.dir c.newName = none
   newersInc : ∀ y ∈ c.newers, y.db = none
